@@ -397,6 +397,14 @@ func c19Process(w *mon.W, _ int) {
 		w.Bucket("phase/dense-sweep")
 	}
 
+	// ---- phase F: big arguments x environment ---------------------------------------------------------
+	if w.Cfg.Base() != "race" && w.Cfg.Base() != "asan" || w.Cfg.Thorough() {
+		c19BigEnv(w)
+		if w.Failed() {
+			return
+		}
+	}
+
 	// ---- digests ----------------------------------------------------------------------------------
 	t2digest, t2text := c19Tables()
 	if t2digest != t1digest {
